@@ -69,15 +69,25 @@ func (t *metaTrack) check(where string) {
 				continue // unreadable => ignored
 			}
 			it, ok := t.byID[sc.FileID]
-			if !ok || sc.FileSize != it.Size || sc.ChunkSize != t.p.Case.Chunk {
-				continue // foreign identity => discarded by the receiver
+			if !ok || sc.FileSize != it.Size || sc.ChunkSize == 0 {
+				continue // metadata of another file
 			}
+			// Metadata written for another chunk size (an earlier run with other options) is
+			// still metadata the loader accepts for this file: its claims are judged with its own
+			// chunk size. Only the current identity is tracked for regression / loss, because the
+			// receiver legitimately replaces a version written for another chunk size.
+			current := sc.ChunkSize == t.p.Case.Chunk
 			t.loadable++
-			seen[sc.FileID] = true
+			if current {
+				seen[sc.FileID] = true
+			}
 			bm := sc.VerifBitmap()
+			if vlib.F.Replay != "" {
+				fmt.Fprintf(os.Stderr, "  c05 @%s: metadata of %s chunk=%d bitmap=%x\n", where, it.RelPath, sc.ChunkSize, bm)
+			}
 			want := t.p.Files[it.RelPath]
 			got, _ := os.ReadFile(filepath.Join(t.base, filepath.FromSlash(it.RelPath)))
-			chunk := int64(t.p.Case.Chunk)
+			chunk := int64(sc.ChunkSize)
 			for i := int64(0); i*chunk < it.Size; i++ {
 				if int(i/8) >= len(bm) || bm[i/8]&(1<<uint(i%8)) == 0 {
 					continue
@@ -89,6 +99,9 @@ func (t *metaTrack) check(where string) {
 				if int64(len(got)) < hi || !bytes.Equal(got[lo:hi], want[lo:hi]) {
 					t.violate("claims-unwritten-chunk", fmt.Sprintf("at %s: metadata of %s marks chunk %d complete but the output file does not hold its bytes (file length %d)", where, it.RelPath, i, len(got)))
 				}
+			}
+			if !current {
+				continue
 			}
 			if prev, ok := t.last[sc.FileID]; ok {
 				for j := range prev {
@@ -171,6 +184,9 @@ func checkC05(p *Prepared, x *vrt.Exec, o *Outcome, flusher bool, fault *FsFault
 	if tr == nil {
 		return
 	}
+	if vlib.F.Replay != "" && o != nil {
+		fmt.Fprintf(os.Stderr, "  c05 outcome=%s send=%v recv=%v diff=%q\n", x.Outcome, o.SendErr, o.RecvErr, o.TreeDiff)
+	}
 	for i, msg := range tr.viol {
 		res.Violate("invariant", "xfer/c05", map[string]any{"class": tr.violCls[i]},
 			fmt.Sprintf("%s fault=%v: %s", p.Case, fault, msg), replayT{Mode: "c05", Case: p.Case, Choices: append([]int{}, x.Choices()...), Extra: vlib.JSON(c05Extra{flusher, fault})})
@@ -199,8 +215,16 @@ func modeC05() {
 				cases = append(cases, Case{Tree: tree, Chunk: 4, Streams: s, Conns: 1, Resume: true, NoRootDir: true, Pre: pre, LatencyMs: lat})
 			}
 		}
+		// metadata left by an earlier run with another chunk size
+		for _, pre := range []string{"holes@2", "partial@8", "holes@3"} {
+			cases = append(cases, Case{Tree: tree, Chunk: 4, Streams: s, Conns: 1, Resume: true, NoRootDir: true, Pre: pre})
+		}
 	}
 	cases = append(cases, Case{Tree: tree, Chunk: 4, Streams: 2, Conns: 1, Resume: true, NoRootDir: false})
+	for _, pre := range []string{"partial@8", "partial@2", "holes@8"} {
+		cases = append(cases, Case{Tree: []Entry{{Path: "a", Size: 16}}, Chunk: 4, Streams: 1, Conns: 1, Resume: true, NoRootDir: true, Pre: pre})
+		cases = append(cases, Case{Tree: []Entry{{Path: "a", Size: 32}}, Chunk: 4, Streams: 2, Conns: 1, Resume: true, NoRootDir: true, Pre: pre})
+	}
 	bound := 1
 	if thorough {
 		bound = 2
